@@ -138,3 +138,13 @@ MUTANTS += [
     dict(property='C12', name='transition_list setter adds every other item', file=BASEF, old="            for t in transition_list:\n                self.add_transition(t)", new="            for t in transition_list[::2]:\n                self.add_transition(t)"),
     dict(property='C12', name='Event takes the FIRST member equation when several members have one', file=TRF, old="            if n_eq>1:\n                raise InputStateError(\"Zero or one equations needed, but \", n_eq, \" provided\")", new="            if n_eq>2:\n                raise InputStateError(\"Zero or one equations needed, but \", n_eq, \" provided\")"),
 ]
+MUTANTS += [
+    dict(property='C13', name='eval_sensitivity: J S + G becomes S-transposed product (G dropped)', file=DETF, old="        A = np.dot(J, S) + G\n\n        if by_state:", new="        A = np.dot(J, S)\n\n        if by_state:"),
+    dict(property='C13', name='sensitivity: by-state input reshaped in Fortran order', file=DETF, old="            S = np.reshape(sens, (self.num_state, self.num_param))\n        else:\n            S = self._SAUtil.vecToMatSens(sens)", new="            S = np.reshape(sens, (self.num_state, self.num_param), 'F')\n        else:\n            S = self._SAUtil.vecToMatSens(sens)"),
+    dict(property='C13', name='by-state Jacobian uses nS-1 for nP in the row arrangement (original defect)', file=DETF, old="            idx = np.array([j*self.num_state + i\n                            for i in range(self.num_state)\n                            for j in range(self.num_param)], int)", new="            idx = np.array([j*self.num_state + i\n                            for i in range(self.num_state)\n                            for j in range(self.num_state - 1)], int)"),
+    dict(property='C13', name='by-state Jacobian keeps the by-parameter diagonal block', file=DETF, old="            outJ = np.kron(J, np.eye(self.num_param))\n            sensJacobianOfState = sensJacobianOfState[idx,:]", new="            sensJacobianOfState = sensJacobianOfState[idx,:]"),
+    dict(property='C13', name='eval_sensitivityIV: J S0 replaced by S0 J', file=DETF, old="        B = np.dot(J, IV)", new="        B = np.dot(IV, J)"),
+    dict(property='C13', name='IV Jacobian: initial-value diagonal block is J (x) I', file=DETF, old="                [A, np.zeros((nS*nS, nS*nP)), np.kron(np.eye(nS), J)]", new="                [A, np.zeros((nS*nS, nS*nP)), np.kron(J, np.eye(nS))]"),
+    dict(property='C13', name='sensitivityIV takes the initial-value block from the front', file=DETF, old="        IV = np.reshape(sensIV[-(nS*nS):], (nS, nS), 'F')", new="        IV = np.reshape(sensIV[:(nS*nS)], (nS, nS), 'F')"),
+    dict(property='C13', name='matToVecSens flattens in C order', file=OUF, old="    return np.reshape(S, numState * numParam, order='F')", new="    return np.reshape(S, numState * numParam, order='C')"),
+]
